@@ -107,16 +107,16 @@ type simNode struct {
 }
 
 type sim struct {
-	h       *harness.H
-	layer   string
-	c       int
-	r       *prng.R
-	ctx     context.Context
-	net     *fmock.Network[msg, msg]
-	cluster uuid.UUID
-	nodes   []*simNode
-	log     []string
-	depth   int
+	h         *harness.H
+	layer     string
+	c         int
+	r         *prng.R
+	ctx       context.Context
+	net       *fmock.Network[msg, msg]
+	cluster   uuid.UUID
+	nodes     []*simNode
+	log       []string
+	depth     int
 	inClosing bool
 	// pending interleaving budget for the exchange currently being started
 	nestAck, nestAck2 int
@@ -139,7 +139,7 @@ type hookClient struct {
 
 var _ freighter.UnaryClient[msg, msg] = (*hookClient)(nil)
 
-func (c *hookClient) Report() alamos.Report          { return c.inner.Report() }
+func (c *hookClient) Report() alamos.Report         { return c.inner.Report() }
 func (c *hookClient) Use(m ...freighter.Middleware) { c.inner.Use(m...) }
 
 func (c *hookClient) Send(ctx context.Context, target address.Address, req msg) (msg, error) {
@@ -413,9 +413,7 @@ func (s *sim) randomStep(nested bool) {
 		s.shape.WriteString("f")
 		s.flush(prng.Pick(r, free))
 	case k < 92:
-		if nested {
-			// a node in the middle of an exchange cannot restart; others can
-		}
+		// a node in the middle of an exchange (busy) cannot restart; the others can
 		n := prng.Pick(r, free)
 		s.shape.WriteString("r")
 		s.restart(n)
@@ -647,6 +645,9 @@ func runCase(h *harness.H, layer string, c int) {
 	h.Eval()
 	s.setup()
 	steps := r.Range(10, 60)
+	if h.Thorough() && r.Chance(1, 3) {
+		steps = r.Range(60, 200) // deeper histories (more restarts/interleavings per case)
+	}
 	for i := 0; i < steps && !s.failed; i++ {
 		s.randomStep(false)
 	}
@@ -718,7 +719,6 @@ func layerConc(h *harness.H) {
 		runConc(h, c)
 	}
 }
-
 
 func runConc(h *harness.H, c int) {
 	r := h.Rand("conc", c)
